@@ -140,4 +140,4 @@ def streams(tier, rng):
 
     def nontrivial(c, o):
         return c if (o.count(' H') >= 2 and ' W' in o) else None
-    yield {'name': 'framing', 'cases': cases, 'project': project, 'oracle': oracle_factory(expects), 'nontrivial': nontrivial}
+    yield {'name': 'framing', 'coqcheck': True, 'cases': cases, 'project': project, 'oracle': oracle_factory(expects), 'nontrivial': nontrivial}
